@@ -4,7 +4,7 @@ use serde_json::{json, Value};
 use std::alloc::{GlobalAlloc, Layout, System};
 use std::cell::Cell;
 use std::collections::BTreeMap;
-use std::sync::atomic::{AtomicBool, AtomicI32, AtomicU64, AtomicUsize, Ordering};
+use std::sync::atomic::{AtomicI32, AtomicU64, AtomicUsize, Ordering};
 use std::sync::Mutex;
 use vmodel::evidence::Evidence;
 
@@ -347,12 +347,15 @@ pub fn with_arena<R>(need: usize, f: impl FnOnce(&mut GuardArena) -> R) -> R {
 // panic trap
 // ---------------------------------------------------------------------------------------------
 
-static QUIET_PANICS: AtomicBool = AtomicBool::new(false);
+thread_local! {
+    static IN_TRAP: Cell<u32> = const { Cell::new(0) };
+}
 
 pub fn install_panic_hook() {
     let default = std::panic::take_hook();
     std::panic::set_hook(Box::new(move |info| {
-        if !QUIET_PANICS.load(Ordering::Relaxed) {
+        // panics inside `trap` are observations; panics anywhere else are harness bugs: print them
+        if IN_TRAP.with(|c| c.get()) == 0 {
             default(info)
         }
     }));
@@ -360,11 +363,9 @@ pub fn install_panic_hook() {
 
 /// run f, turning a panic into Err(message)
 pub fn trap<R>(f: impl FnOnce() -> R) -> Result<R, String> {
-    if !QUIET_PANICS.load(Ordering::Relaxed) {
-        QUIET_PANICS.store(true, Ordering::Relaxed);
-    }
+    IN_TRAP.with(|c| c.set(c.get() + 1));
     let r = std::panic::catch_unwind(std::panic::AssertUnwindSafe(f));
-    // (left quiet: worker threads run concurrently; harness panics are reported via results)
+    IN_TRAP.with(|c| c.set(c.get() - 1));
     r.map_err(|e| {
         if let Some(s) = e.downcast_ref::<&str>() {
             s.to_string()
@@ -376,9 +377,7 @@ pub fn trap<R>(f: impl FnOnce() -> R) -> Result<R, String> {
     })
 }
 
-pub fn loud_panics() {
-    QUIET_PANICS.store(false, Ordering::Relaxed);
-}
+pub fn loud_panics() {}
 
 // ---------------------------------------------------------------------------------------------
 // violation collector + known findings
@@ -430,6 +429,14 @@ impl Ctx {
             Err(_) => vec![],
         };
         set_property(id);
+        if let Ok(rd) = std::fs::read_dir("/verif/replays") {
+            for e in rd.flatten() {
+                let n = e.file_name().to_string_lossy().to_string();
+                if n.starts_with(&format!("{id}-")) {
+                    let _ = std::fs::remove_file(e.path());
+                }
+            }
+        }
         let tier_s = if tier == Tier::Quick { "quick" } else { "thorough" };
         Ctx {
             id: id.to_string(),
